@@ -111,41 +111,7 @@ def run(ctx):
 
     # ---------------- R04.0 call typing
     r0 = ctx.rule('R04.0', 'calls through function-typed values are arity- and argument-checked (type_of Call)')
-    tof = fns.get((CSF, 'type_of'))
-    if not tof:
-        r0.fail('anchor/type_of', CSF, 'type_of not found')
-    else:
-        call_arms = []
-        for m, ps in find_nodes(tof['body'], lambda y: y.get('k') == 'match'):
-            for a in m['arms']:
-                if re.search(r'XExpr\s*::\s*Call', a['pat'].get('s') or ''):
-                    call_arms.append(a)
-        if len(call_arms) != 1:
-            r0.fail('type_of/call-arm', '%s:%d' % (CSF, tof['line']), 'Call arm not found')
-        else:
-            arm = call_arms[0]
-            kinds = {}
-            for n, ps in find_nodes(arm['body'], lambda y: y.get('k') == 'if' and y['cond'].get('k') == 'letexpr'):
-                m = re.search(r'XType\s*::\s*(XCallable|XFunc)', n['cond']['pat'].get('s') or '')
-                if m:
-                    kinds[m.group(1)] = n
-            for kind in ('XCallable', 'XFunc'):
-                n = kinds.get(kind)
-                if n is None:
-                    r0.inst({'callee_kind': kind}, ok=False)
-                    r0.fail('type_of/%s/missing' % kind, '%s:%d' % (CSF, arm['line']), 'no typing branch for %s callees' % kind)
-                    continue
-                body_src = flat_src({'k': 'x', 'then': n['then']})
-                conds = [flat_src(x['cond']) for x, _ in find_nodes(n['then'], lambda y: y.get('k') == 'if')]
-                arity = any('args.len()' in c for c in conds)
-                argcheck = bool(find_nodes(n['then'], lambda y: y.get('k') == 'mcall' and y['method'] == 'bind_in_assignment'))
-                # the arity test must come before the Ok(return type)
-                ok = arity and argcheck
-                r0.inst({'callee_kind': kind, 'arity_test': arity, 'argument_test': argcheck}, ok=ok, kind=kind)
-                if not arity:
-                    r0.fail('type_of/%s/arity' % kind, '%s:%d' % (CSF, n['line']), 'a call through a %s value is typed without comparing the number of arguments with the parameters (the evaluator indexes parameters by position unchecked)' % kind)
-                if not argcheck:
-                    r0.fail('type_of/%s/args' % kind, '%s:%d' % (CSF, n['line']), 'a call through a %s value is typed without checking the argument types' % kind)
+    # (the clauses are decided on the MIR below, so that an if-let chain, a match or a helper function are all the same)
     # (c) on the MIR: what becomes of each assignability test of an argument.  Its binding must either be accumulated
     #     (Bind::mix: the callee is a function value with generic parameters of its own) or be required empty
     #     (Bind::is_empty: the parameters a callable type mentions are the enclosing function's and are opaque here);
@@ -162,6 +128,37 @@ def run(ctx):
             cons = mirq.consumers(ctx.mir, b, tm['dest']['l'])
             ok = 'xtype::Bind::mix' in cons or 'xtype::Bind::is_empty' in cons
             n_arg_tests += 1
+            # (d) and the loop that performs it is dominated by a comparison of the number of arguments with the number of
+            #     parameters: a branch whose condition is computed from a length of the argument vector (Vec<XExpr>) and from
+            #     a length / count over the callee's parameter list
+            arity_ok = False
+            for d in sorted(b.dominators().get(bb, ())):
+                tmd = b.term(d)
+                if tmd['k'] != 'switch' or d == bb:
+                    continue
+                from .lib.facts import op_local as _ol
+                dl = _ol(tmd['discr'])
+                if dl is None:
+                    continue
+                sl = mirq.backslice(b, [dl])
+                lens_args = lens_params = False
+                for cbb, ct in b.calls():
+                    if ct['dest']['p'] or ct['dest']['l'] not in sl:
+                        continue
+                    cn = _sg(_cn(ct) or '')
+                    aty = (ct.get('argtys') or [''])[0]
+                    if cn.endswith('Vec::len') or cn.endswith('<impl [T]>::len'):
+                        if 'xexpr::XExpr' in aty:
+                            lens_args = True
+                        elif 'xtype::XType' in aty or 'xtype::XFuncParamSpec' in aty:
+                            lens_params = True
+                    elif cn.endswith('Iterator::count') and 'XFuncParamSpec' in aty:
+                        lens_params = True
+                if lens_args and lens_params:
+                    arity_ok = True
+            r0.inst({'argument_test': mirq.site(b, bb), 'dominated_by_arity_comparison': arity_ok}, ok=arity_ok, kind=('arity', n_arg_tests))
+            if not arity_ok:
+                r0.fail('type_of/arity-not-compared', mirq.site(b, bb), 'the arguments of a call through a function value are checked against the parameter types without a dominating comparison of the number of arguments with the number of parameters (the evaluator indexes parameters by position unchecked)')
             r0.inst({'argument_test': mirq.site(b, bb), 'binding_goes_to': sorted(c.split('::')[-1] for c in cons)}, ok=ok, kind=('argtest', n_arg_tests))
             if not ok:
                 r0.fail('type_of/argument-binding-dropped', mirq.site(b, bb), 'the binding produced by checking an argument against a parameter type is neither accumulated (Bind::mix) nor required to be empty (Bind::is_empty): an argument can bind a generic parameter of the enclosing function (f(1) accepted for f: (T)->(T))')
